@@ -1361,7 +1361,7 @@ atexit.register(_report)
 
 MANIFEST = {
     "text": ("Proof (for the executable model). Lean theorems about the executable model of transport.py (Y0.Model.Trso / TrDsl, tied to the code "
-             "by the correspondence check on every run; 27 theorems in Props/C05 + 13 in Props/C05Usable + 19 in Props/C06Transport): "
+             "by the correspondence check on every run; 27 theorems in Props/C05 + 25 in Props/C05Usable + 19 in Props/C06Transport): "
              "(0) SOUNDNESS (trso_sound, full strength): whenever identify_target_outcomes returns an estimand, its value in "
              "every family of positive semi-Markovian models compatible with the derived selection diagrams, with pi* leaves "
              "read in the target model and PP[d](.. @ z) leaves read in the model of domain d under do(z), is the target P*(y|do(x)) "
@@ -1405,7 +1405,8 @@ MANIFEST = {
              "are the special case identifyUsesLine6_of_no_declared; a bow graph with an experiment on the treatment shows the "
              "hypothesis cannot be dropped; the EXACT predicate identifyUsesLine6x (line 4 inspects a later c-component only if every earlier "
              "one returned an estimand, as the Python loop does) gives the same five theorems under the weaker hypothesis "
-             "(trso_line6_unused_iff_id, ..., usesLine6x_le). Both predicates are tied to the real run on every check (stream `uses6`: a "
+             "(trso_line6_unused_iff_id, ..., usesLine6x_le), and the vocabulary half of the clause: when line 6 is never used the estimand reads "
+             "the target observational distribution only (trso_line6_unused_target_only, generalising trso_no_domains_target_only). Both predicates are tied to the real run on every check (stream `uses6`: a "
              "spy on trso_line6; whatever the real run or the exact predicate sees the over-approximation sees, and whenever the exact "
              "predicate is false TRSO's and ID's real verdicts agree; the real run and the exact predicate themselves can differ "
              "because line 4 walks a Python set of frozensets). All clauses are also decided on every run by the correspondence plus the "
